@@ -186,9 +186,20 @@ Definition count_ref (r : ref) (l : list fire) : nat := length (filter (fun f =>
 Definition key := (ref * Z)%type.
 Definition key_eqb (a b : key) : bool := Nat.eqb (fst a) (fst b) && (snd a =? snd b).
 
-Inductive pc := PStart | PChecked | PWon | PDone.
+(* where a claimer is in makeJobFn / claimClusterFire *)
+Inductive pc :=
+| PStart        (* the job function has been called for the tick *)
+| PChecked      (* the tick is not stale: about to call ClaimScheduleFire *)
+| PSkipped      (* stale tick: no claim, no delivery *)
+| PWon          (* the put-if-absent succeeded: about to Tell *)
+| PLost         (* ErrScheduleFireClaimed: no delivery *)
+| PDelivered.   (* Tell performed *)
 
-Record node := mkNode { n_pc : pc; n_key : key; n_ttl : Z; n_won : bool; n_delivered : bool }.
+Record node := mkNode { n_pc : pc; n_key : key; n_ttl : Z }.
+
+Definition n_won (n : node) : bool := match n_pc n with PWon | PDelivered => true | _ => false end.
+Definition n_delivered (n : node) : bool := match n_pc n with PDelivered => true | _ => false end.
+Definition n_attempted (n : node) : bool := match n_pc n with PWon | PLost | PDelivered => true | _ => false end.
 
 Record cstate := mkC { c_reg : list (key * Z); c_nodes : list node }.
 
@@ -210,16 +221,18 @@ Fixpoint upd_node (l : list node) (i : nat) (f : node -> node) : list node :=
   | x :: t, S j => x :: upd_node t j f
   end.
 
+Definition set_pc (p : pc) (n : node) : node := mkNode p (n_key n) (n_ttl n).
+
 Definition cstep (c : cstate) (l : clabel) : cstate :=
   match l with
-  | LArrive k ttl => mkC (c_reg c) (c_nodes c ++ [mkNode PStart k ttl false false])
+  | LArrive k ttl => mkC (c_reg c) (c_nodes c ++ [mkNode PStart k ttl])
   | LCheck i now =>
       match nth_error (c_nodes c) i with
       | Some n =>
           match n_pc n with
           | PStart =>
               let stale := n_ttl n <? now - snd (n_key n) in
-              mkC (c_reg c) (upd_node (c_nodes c) i (fun n => mkNode (if stale then PDone else PChecked) (n_key n) (n_ttl n) false false))
+              mkC (c_reg c) (upd_node (c_nodes c) i (set_pc (if stale then PSkipped else PChecked)))
           | _ => c
           end
       | None => c
@@ -230,9 +243,9 @@ Definition cstep (c : cstate) (l : clabel) : cstate :=
           match n_pc n with
           | PChecked =>
               if reg_has (c_reg c) (n_key n) now
-              then mkC (c_reg c) (upd_node (c_nodes c) i (fun n => mkNode PDone (n_key n) (n_ttl n) false false))
+              then mkC (c_reg c) (upd_node (c_nodes c) i (set_pc PLost))
               else mkC ((n_key n, now + n_ttl n) :: filter (fun e => negb (key_eqb (fst e) (n_key n))) (c_reg c))
-                       (upd_node (c_nodes c) i (fun n => mkNode PWon (n_key n) (n_ttl n) true false))
+                       (upd_node (c_nodes c) i (set_pc PWon))
           | _ => c
           end
       | None => c
@@ -241,7 +254,7 @@ Definition cstep (c : cstate) (l : clabel) : cstate :=
       match nth_error (c_nodes c) i with
       | Some n =>
           match n_pc n with
-          | PWon => mkC (c_reg c) (upd_node (c_nodes c) i (fun n => mkNode PDone (n_key n) (n_ttl n) true true))
+          | PWon => mkC (c_reg c) (upd_node (c_nodes c) i (set_pc PDelivered))
           | _ => c
           end
       | None => c
